@@ -98,6 +98,12 @@ theorem C15_fromStr_complete (v : Int) (h : Safe v) : fromStr (Dec.showInt v) = 
   simp [Dec.parseRust_showInt, safe_in_i64 h]
   exact (C15_new_iff _ _).mpr ⟨rfl, h⟩
 
+/-- two different safelongs never have the same text (PLAIN, JSON key and JSON number all use this text) -/
+theorem C15_text_injective (v w : Int) (hv : Safe v) (hw : Safe w) (e : Dec.showInt v = Dec.showInt w) : v = w := by
+  have h1 := C15_fromStr_complete v hv
+  rw [e, C15_fromStr_complete w hw] at h1
+  exact (Option.some.inj h1).symm
+
 theorem C15_fromStr_value (s : List Nat) (v : Int) (h : fromStr s = some v) :
     Dec.parseRust s = some v := by
   unfold fromStr at h
